@@ -123,13 +123,12 @@ func lateCancel(c *Ctx, im *Impl) {
 	// sessions arrive for a few seconds, each hung up the moment its connection has been
 	// inserted; every admission requests a routing-table run (0.1 s later, ~0.2 s long on this
 	// graph), so a good part of the sessions finds the runner busy
-	budget := 2500 * time.Millisecond
+	count := 150
 	if c.Thorough() {
-		budget = 12 * time.Second
+		count = 800
 	}
 	var sessions []*ScriptSess
-	start := time.Now()
-	for i := 0; time.Since(start) < budget && i < 4000; i++ {
+	for i := 0; i < count; i++ {
 		id := fmt.Sprintf("x%d", i)
 		s := NewScriptSess()
 		sessions = append(sessions, s)
